@@ -498,6 +498,20 @@ fn patch_cases(tier: Tier) -> Vec<PCase> {
                 out.push(PCase { label: format!("{label} field@{off}={v:#x}"), base: base.clone(), entry: e.clone(), declared_after: declared(inner), expect: None, well_formed: false });
             }
         }
+        // whole digest fields blanked (a 16-byte field cannot be reached by the per-dword mutations): a reader that
+        // takes an all-zero digest for "no digest" would return unverified bytes
+        for (what, range) in [("md5_before", 28 + 24..28 + 40), ("md5_after", 28 + 40..28 + 56)] {
+            for fill in [0x00u8, 0xFF] {
+                if range.end <= entry.len() {
+                    let mut e = entry.clone();
+                    for b in &mut e[range.clone()] {
+                        *b = fill;
+                    }
+                    let inner = &e[28..];
+                    out.push(PCase { label: format!("{label} {what}=all-{fill:#04x}"), base: base.clone(), entry: e.clone(), declared_after: declared(inner), expect: None, well_formed: false });
+                }
+            }
+        }
         for pos in (28 + 64)..entry.len() {
             for x in [0x01u8, 0x80] {
                 let mut e = entry.clone();
